@@ -449,8 +449,8 @@ class PSBaseParser:
             return i + 1
 
         elif self.oct:
-            chrcode = int(self.oct, 8)
-            assert chrcode < 256, "Invalid octal %s (%d)" % (repr(self.oct), chrcode)
+            # PDF Reference 3.2.3: high-order overflow of \ddd shall be ignored.
+            chrcode = int(self.oct, 8) & 255
             self._curtoken += bytes((chrcode,))
             self._parse1 = self._parse_string
             return i
